@@ -38,7 +38,8 @@ func init() {
 		Level: "exploration",
 		Rule: "part 1: seeded groups of 2..16 goroutines released from a barrier, each loading one of 10 input families (version:, extends in/across files, include with env_file, env/label files, secrets from the environment, multi-file override, interpolation, profiles, build/deploy) x {same input, all different, mixed} x GOMAXPROCS {1,2,4,16} x optional Gosched storm, in a -race build; every concurrent result is compared (YAML+JSON digest, or error class) with the same load done alone. " +
 			"part 2: WithServicesTransform and WithImagesResolved on projects with 0..6 services with every callback parked on the schedule controller: every release order for <=4 services (sampled above), failures injected at each position and at pairs; trace monitor: each callback exactly once, returned services == per-service results (unique payloads), first failing callback's error in release order, return only after every started callback returned, deadlock = global quiescence with nothing parked and no return. " +
-			"part 3: graph.InDependencyOrder on every labelled DAG on 2..3 services and ordered DAGs on 4, with concurrency limits 1..2 and 1..3 failing visitors, release orders enumerated depth-first plus seeded yield-point schedules (trace monitor of C13: no deadlock, first error, bound respected). A case is non-trivial when >=2 goroutines/callbacks really ran; distinct = distinct (configuration, inputs / release order).",
+			"part 3: graph.InDependencyOrder on every labelled DAG on 2..3 services and ordered DAGs on 4, with concurrency limits 1..2 and 1..3 failing visitors, release orders enumerated depth-first plus seeded yield-point schedules (trace monitor of C13: no deadlock, first error, bound respected). " +
+			"part 3b: free-running graph.CollectInDependencyOrder (no schedule controller, 8 CPUs, race detector) on fans of 6/16 services over chains of 8/40, forward and reverse, with and without WithRootNodesAndDown, concurrency limit 0/4: per round the function ran exactly once for every selected service, never for another, and the collected map holds its results. A case is non-trivial when >=2 goroutines/callbacks really ran; distinct = distinct (configuration, inputs / release order).",
 		Assumptions: []string{
 			"each concurrent load gets its own ConfigDetails value and its own Environment map with equal content (sharing one mutable map between callers is not what the statement promises)",
 			"the race detector only sees races on executions that happened; reports are read from GORACE log files and de-duplicated by the pair of first compose-go frames",
